@@ -176,6 +176,7 @@ def finish(ctx, meta, extra=None):
     for m_ in ctx.repo.modules.values():
         for k_, v_ in getattr(m_, "normal_form", {}).items():
             nf[k_] = nf.get(k_, 0) + v_
+    cov["renames_undone"] = getattr(ctx.repo, "renames", {}) or {}
     cov["normal_form_rewrites"] = nf       # what sa/normalize.py changed before the rules looked (helpers inlined, named conditions/values substituted, ...)
     cov.update(ctx.notes)
     if extra:
